@@ -1,9 +1,12 @@
 package hx
 
 import (
+	"encoding/json"
 	"fmt"
 	"math/big"
 	"strings"
+
+	"github.com/google/jsonschema-go/jsonschema"
 
 	"verif/engine/refsem"
 	"verif/engine/sx"
@@ -155,6 +158,15 @@ func checkC01(cc *CheckCtx, r *Report) {
 	r.Bounds = append(r.Bounds, "template T(depth 2, array length <= 2, <= 3 pool keys) for quick; thorough adds seeded triples and nesting with T(2,3,4)")
 	r.Outside = append(r.Outside, "multipleOf with non-dyadic divisors; regexp matching on strings outside the realised pool is abstracted (same predicate on both sides); schema recursion only through instance-descending keywords; instances deeper/longer than the template")
 	cc.RunValidateFamily(r, skels, VOptions{ValidatePaths: true})
+	// numeric keyword values symbolic (finite floats on the mantissa/exponent grid, int32 integers)
+	ps := FamilyParam(TmplSpec{Depth: 1, MaxLen: 2, MaxKeys: 2})
+	ps, results := RunSkeletons(cc.P, ps, cc.Workers, cc.Timeout, func(w *Worker, sk *Skeleton) *SkelResult {
+		return w.RunParamSkeleton(sk, "C01", false)
+	})
+	for i, s := range results {
+		r.AddSkel(ps[i], s)
+	}
+	r.Bounds = append(r.Bounds, "F-param: the values of minimum/maximum/exclusive*/min*/max* keywords are symbolic too (floats: 53-bit mantissa x exponent set; integers: the int32 range a schema document can carry)")
 }
 
 var _ = strings.Contains
@@ -327,5 +339,215 @@ func init() {
 			"hash law: hashValue on two symbolic values with one symbolic seed; maphash modelled as a chain of uninterpreted mixing functions (one application per token written), so the query ranges over all hash functions and seeds: O-eq(x,y) => equal hashes",
 			"enum/const: listed values are symbolic JSON values (templates T(1,1,1)), instance symbolic with symbolic representation",
 			"uniqueItems: arrays of length <= 3 (quick) / 4 (thorough), elements depth 1 in canonical and mixed representations; verdict <=> no two elements are JSON-equal, for every hash function, seed and collision pattern")
+	}
+}
+
+// premiseSkeletons selects the Validate skeletons on which the write-footprint premise
+// of C13/C14 is decided.
+func premiseSkeletons(cc *CheckCtx) []*Skeleton {
+	ts := TmplSpec{Depth: 2, MaxLen: 2, MaxKeys: 3}
+	skels := FamilySingle(ts)
+	for _, sk := range FamilyPair(ts, true) {
+		if strings.Contains(sk.Name, "logic.") || strings.Contains(sk.Name, "uneval") || strings.Contains(sk.Name, "unique") || cc.Thorough() {
+			skels = append(skels, sk)
+		}
+	}
+	skels = append(skels, FamilyNest(ts, cc.Thorough())...)
+	skels = append(skels, FamilyDraft7(ts, false)...)
+	dyn := FamilyDyn(2, 2, cc.Seed, false)
+	for i, sk := range dyn {
+		if i%5 == 0 || cc.Thorough() {
+			skels = append(skels, sk)
+		}
+	}
+	return skels
+}
+
+func init() {
+	Checks["C13"] = func(cc *CheckCtx, r *Report) {
+		r.Level = "other"
+		skels := premiseSkeletons(cc)
+		cc.RunValidateFamily(r, skels, VOptions{SharedWritesAreFindings: true})
+		// ApplyDefaults on distinct instances: only the instance may be written
+		ds := FamilyDefaults(cc.Thorough())
+		ds, results := RunSkeletons(cc.P, ds, cc.Workers, cc.Timeout, func(w *Worker, sk *Skeleton) *SkelResult {
+			s := w.RunDefaultsSkeleton(sk, "C13")
+			if len(s.SharedWrites) > 0 {
+				s.Findings = append(s.Findings, Finding{Property: "C13", Kind: "shared-write", Skeleton: sk.Name, Family: sk.Family, Doc: sk.Doc, Expected: "ApplyDefaults writes only to the instance and to memory allocated during the call", Observed: strings.Join(s.SharedWrites, "; ")})
+			}
+			return s
+		})
+		for i, s := range results {
+			r.AddSkel(ds[i], s)
+		}
+		r.Explanation = "Schedules are not enumerated (the engine has no model of Go's concurrency). What is decided, by symbolic execution of the real SSA over all instances within the template bounds, is a sufficient condition that makes schedules irrelevant: on every path of Validate (and of ApplyDefaults, except for the caller's own instance) no Store / map update / reflect Set targets memory that existed before the call (the imported Resolved, Schema tree, side tables, package-level variables after initialisation) unless it goes through a sync.Map. Calls that write only call-local memory cannot race with each other and behave as in isolation. A violation is confirmed natively by a deep before/after comparison or by running concurrent calls under the race detector."
+		r.Bounds = append(r.Bounds, boundsValidate...)
+		r.Outside = append(r.Outside, "For, Marshal, CloneSchemas and Resolve on shared inputs (their write footprints are not explored); the Go memory model itself; library internals behind intrinsics (regexp, fmt, maphash are documented safe for concurrent use)")
+		r.Extra["paths_with_shared_writes"] = len(r.SharedWrites)
+	}
+	Checks["C14"] = func(cc *CheckCtx, r *Report) {
+		// (a) purity premise: no store into the Resolved, the Schema tree or the instance
+		skels := premiseSkeletons(cc)
+		if !cc.Thorough() {
+			var sub []*Skeleton
+			for i, sk := range skels {
+				if i%3 == 0 {
+					sub = append(sub, sk)
+				}
+			}
+			skels = sub
+		}
+		// (b) determinism under every map iteration order
+		ts := TmplSpec{Depth: 1, MaxLen: 2, MaxKeys: 2}
+		if cc.Thorough() {
+			ts.MaxKeys = 3
+		}
+		var orders []*Skeleton
+		for _, sk := range append(FamilyPair(ts, false), FamilyDraft7(ts, false)...) {
+			if strings.Contains(sk.Name, "object.") || strings.Contains(sk.Name, "dep") || strings.Contains(sk.Name, "pattern") || strings.Contains(sk.Name, "props") {
+				c := *sk
+				c.Name += ".all-orders"
+				c.AllOrders = true
+				orders = append(orders, &c)
+			}
+		}
+		if !cc.Thorough() {
+			var sub []*Skeleton
+			for i, sk := range orders {
+				if i%3 == 0 {
+					sub = append(sub, sk)
+				}
+			}
+			orders = sub
+		}
+		skels = append(skels, orders...)
+		// (c) all hash seeds: uniqueItems with the symbolic hash model
+		skels = append(skels, mkSkel("F-unique", "len3", J{"uniqueItems": true}, refsem.Draft2020, TmplSpec{1, 3, 1}))
+		cc.RunValidateFamily(r, skels, VOptions{SharedWritesAreFindings: true, ValidatePaths: true})
+		// scaffold (native, not solver-decided): Resolve leaves the Schema tree untouched; repeated Marshal is byte-identical
+		impure, nondet := 0, 0
+		for _, sk := range skels {
+			s := new(jsonschema.Schema)
+			if json.Unmarshal([]byte(sk.Doc), s) != nil {
+				continue
+			}
+			before := DeepDump(s)
+			b1, _ := json.Marshal(s)
+			s.Resolve(nil)
+			if DeepDump(s) != before {
+				impure++
+			}
+			for i := 0; i < 3; i++ {
+				b2, _ := json.Marshal(s)
+				if string(b1) != string(b2) {
+					nondet++
+				}
+			}
+		}
+		r.Extra["scaffold_resolve_mutated_schema"] = impure
+		r.Extra["scaffold_marshal_nondeterministic"] = nondet
+		if impure > 0 {
+			r.Findings = append(r.Findings, Finding{Property: "C14", Kind: "resolve-mutates-schema", Expected: "Resolve leaves the Schema tree untouched", Observed: fmt.Sprintf("%d skeleton(s) whose Schema differs after Resolve (deep comparison)", impure)})
+		}
+		r.Bounds = append(r.Bounds, boundsValidate...)
+		r.Bounds = append(r.Bounds, "map iteration: every range over a map (instance objects, Properties, PatternProperties, dependencies, annotations) forks over all orders of up to 4 keys; since each path is compared with the order-independent reference verdict, agreement on all paths is determinism; hash seeds: symbolic seed and uninterpreted hash function; second call: see C06's two-call paths")
+		r.Outside = append(r.Outside, "purity of Resolve and determinism of Marshal are native scaffold observations per skeleton (reported, not solver-decided); cross-process effects other than map order and hash seed")
+	}
+}
+
+func init() {
+	Checks["C10"] = func(cc *CheckCtx, r *Report) {
+		// (a) Validate with every numeric Schema field symbolic, including non-finite floats and the
+		// full int range (a Go-constructed Schema can hold them), instance symbolic
+		ps := FamilyParam(TmplSpec{Depth: 1, MaxLen: 2, MaxKeys: 2})
+		for _, sk := range ps {
+			tm := *sk.Tm
+			tm.NumReps = []int{sx.RepFloat64, sx.RepInt64, sx.RepUint64, sx.RepJSONNumber}
+			tm.StrT, tm.KeyT = cc.P.NamedType("VerifStr"), cc.P.NamedType("VerifKey")
+			sk.Tm = &tm
+		}
+		ps, results := RunSkeletons(cc.P, ps, cc.Workers, cc.Timeout, func(w *Worker, sk *Skeleton) *SkelResult {
+			return w.RunParamSkeleton(sk, "C10", true)
+		})
+		for i, s := range results {
+			for j := range s.Findings {
+				s.Findings[j].Class = ClassifyFinding(s.Findings[j])
+			}
+			r.AddSkel(ps[i], s)
+		}
+		// (b) every instance representation on the structural skeletons: panics and budget overruns only
+		ts := TmplSpec{Depth: 2, MaxLen: 2, MaxKeys: 2}
+		var skels []*Skeleton
+		for i, sk := range append(FamilySingle(ts), FamilyDraft7(ts, false)...) {
+			if cc.Thorough() || i%2 == 0 {
+				skels = append(skels, repProfile(cc.P, sk, "all"))
+			}
+		}
+		cc.RunValidateFamily(r, skels, VOptions{})
+		// (c) ApplyDefaults on arbitrary JSON-shaped instances
+		ds := FamilyDefaults(cc.Thorough())
+		ds, dres := RunSkeletons(cc.P, ds, cc.Workers, cc.Timeout, func(w *Worker, sk *Skeleton) *SkelResult {
+			return w.RunDefaultsSkeleton(sk, "C10")
+		})
+		for i, s := range dres {
+			r.AddSkel(ds[i], s)
+		}
+		// (d) Resolve on reference topologies incl. failing loaders (native scaffold: must return, not panic)
+		rf := FamilyRef(cc.Thorough(), cc.Seed)
+		cc.RunValidateFamily(r, rf, VOptions{})
+		r.Bounds = append(r.Bounds, boundsValidate...)
+		r.Bounds = append(r.Bounds, "every feasible path that ends in a Go panic (explicit panic, assert, run-time error, reflect-model panic) or exhausts the step/depth budget is a violation candidate, replayed natively under recover; Schema numeric fields range over the float model plus +Inf/-Inf/NaN and the full int range")
+		r.Outside = append(r.Outside, "Unmarshal on arbitrary bytes (inside encoding/json); For/ForType on arbitrary types (types are declared programs; see C16); Schema graphs with shared or cyclic pointers (checkStructure is exercised natively by C20's scaffold only)")
+	}
+}
+
+func init() {
+	Checks["C18"] = func(cc *CheckCtx, r *Report) {
+		ts := TmplSpec{Depth: 2, MaxLen: 2, MaxKeys: 3}
+		skels := append(FamilySingle(ts), FamilyNest(ts, false)...)
+		skels = append(skels, FamilyDraft7(ts, false)...)
+		if cc.Thorough() {
+			skels = append(skels, FamilyPair(ts, true)...)
+		}
+		for _, sk := range skels {
+			sk.Name += "@havoc"
+		}
+		cc.RunValidateFamily(r, skels, VOptions{Havoc: true, ValidatePaths: true})
+		// (b) scaffold, native: decorating every subschema with non-asserting and unknown keywords
+		// leaves the verdict unchanged on the suite's own instances; Unmarshal accepts the decorated documents
+		groups, _ := LoadSuite("draft2020-12")
+		g7, _ := LoadSuite("draft7")
+		groups = append(groups, g7...)
+		checked, differs := 0, 0
+		for _, g := range groups {
+			sk := &Skeleton{Doc: string(g.SchemaJSON), Draft: map[string]int{"2020-12": refsem.Draft2020, "7": refsem.Draft7}[g.Draft], Universe: nil}
+			if strings.Contains(sk.Doc, "$ref") || strings.Contains(sk.Doc, "$dynamicRef") {
+				continue
+			}
+			for _, t := range g.Tests {
+				var inst any
+				json.Unmarshal(t.Data, &inst)
+				d, _ := decoratedVerdictDiffers(sk, inst)
+				checked++
+				if d {
+					differs++
+				}
+			}
+		}
+		cvChecked, cvBad := caseVariantScaffold()
+		r.Extra["scaffold_case_variant_documents"] = cvChecked
+		r.Extra["scaffold_case_variant_failures"] = len(cvBad)
+		if len(cvBad) > 0 {
+			r.Findings = append(r.Findings, Finding{Property: "C18", Kind: "case-variant-keyword-captured", Doc: cvBad[0], Expected: "a keyword that differs from a vocabulary keyword only in letter case is unknown: Unmarshal accepts it and it does not influence validation",
+				Observed: fmt.Sprintf("%d of %d case-variant documents are rejected or change the verdict, e.g. %s", len(cvBad), cvChecked, cvBad[0]), Class: "case-variant-keyword"})
+		}
+		r.Extra["scaffold_decorated_suite_cases"] = checked
+		r.Extra["scaffold_decorated_suite_differences"] = differs
+		if differs > 0 {
+			r.Findings = append(r.Findings, Finding{Property: "C18", Kind: "decoration-changes-verdict", Expected: "same verdict", Observed: fmt.Sprintf("%d of %d suite cases change verdict when decorated", differs, checked)})
+		}
+		r.Bounds = append(r.Bounds, boundsValidate...)
+		r.Bounds = append(r.Bounds, "havoc: in every imported Schema node Title, Description, Comment, Format, ContentEncoding, ContentMediaType (arbitrary strings), Deprecated, ReadOnly, WriteOnly (arbitrary booleans), Default (arbitrary bytes), Examples and Extra (arbitrary JSON values, including an Extra key that differs from a keyword only in case) are unconstrained symbolic values; the reference semantics ignores them")
+		r.Outside = append(r.Outside, "clause (b) of the property in full generality - unknown keyword spellings through encoding/json's case-insensitive field matching - is inside encoding/json and is not encoded; it is covered only by the concrete kernel of known case variants (reported as a known finding if present) and the native decoration scaffold; unreferenced $defs entries are covered by the skeleton families (ref skeletons carry unused definitions)")
 	}
 }
